@@ -325,7 +325,9 @@ func Collect[T any](ctx context.Context, s Stream[T]) ([]T, error) {
 // all of them.
 func Last[T any](ctx context.Context, s Stream[T], n int) ([]T, error) {
 	defer s.Close()
-	buf := make([]T, n)
+	// buf is a ring of the last n items. It grows as items arrive rather than being allocated at n
+	// up front, so that an n much larger than the input costs no more than the input.
+	buf := []T{}
 	i := 0
 	for {
 		item, err := s.Next(ctx)
@@ -334,16 +336,15 @@ func Last[T any](ctx context.Context, s Stream[T], n int) ([]T, error) {
 		} else if err != nil {
 			return nil, err
 		}
-		if n > 0 {
+		if len(buf) < n {
+			buf = append(buf, item)
+		} else if n > 0 {
 			buf[i%n] = item
 		}
 		i++
 	}
-	if n == 0 {
+	if i <= n || n <= 0 {
 		return buf, nil
-	}
-	if i < n {
-		return buf[:i], nil
 	}
 	out := make([]T, n)
 	idx := i % n
